@@ -57,7 +57,7 @@ pub fn load_ref_zone(name: &str) -> Result<RefZone, String> {
     Ok(RefZone { name: name.to_string(), file, zone, last_table, rule_years: years, has_rule })
 }
 
-fn iso_dt(local: i128) -> Option<IsoDateTime> {
+pub fn iso_dt(local: i128) -> Option<IsoDateTime> {
     let (d, tod) = split_local(local);
     let (y, m, dd) = civil_from_days(d);
     let f = tod_fields(tod);
@@ -179,7 +179,7 @@ impl Space for ZoneSweep {
             };
             let kind = if *off_after > off_before { "gap" } else { "overlap" };
             let is_dst_after = rz.file.trans.iter().find(|x| x.0 == ts).map(|x| rz.file.types[x.1].1);
-            for (l, pos) in [(lo - NS, "just_before"), (lo, "first_second"), ((lo + hi) / 2 / NS * NS, "middle"), (hi - NS, "last_second"), (hi, "just_after")] {
+            for (l, pos) in [(lo - NS, "just_before"), (lo, "first_second"), ((lo + hi) / 2 / NS * NS, "middle"), (hi - NS, "last_second"), (hi, "just_after"), (lo - 1, "last_nanosecond_before"), (hi - 1, "last_nanosecond_inside"), (lo + 1, "first_nanosecond+1")] {
                 // stay clear of neighbouring transitions so that the expected set is decided by this one alone
                 let Some(dt) = iso_dt(l) else { continue };
                 let want: BTreeSet<i128> = rz.zone.candidates(l).into_iter().collect();
